@@ -208,6 +208,9 @@ class Calls(Interp):
     # ------------------------------------------------------------------ contracts at call sites
     def apply_contract(self, c, binding, callee_name):
         self.used_contracts.add(c.fid)
+        for fv in c.labels.get("free_vars", {}):
+            if fv not in binding and fv in self.st.env:
+                binding[fv] = self.st.env[fv]      # a nested function's captured variable: the caller's current value
         # typed view of the arguments (e.g. None passed for an Obj parameter)
         for p, ty in c.types.items():
             if p in binding and p != "return":
